@@ -402,7 +402,10 @@ pub fn check(property: &str, tier: Tier) -> i32 {
             Tier::Quick => it.quick,
             Tier::Thorough => it.thorough,
         };
-        totals.push(((n as f64) * scale).ceil() as u64);
+        // diagnostics only (mutant triage): restrict a check to one family
+        let only = std::env::var("VERIF_ONLY_FAMILY").ok();
+        let skip = only.as_deref().is_some_and(|f| f != it.family.name());
+        totals.push(if skip { 0 } else { ((n as f64) * scale).ceil() as u64 });
     }
     for w in 0..n_workers {
         let progress_path = scratch.join(format!("progress-{w}.bin"));
